@@ -1,39 +1,124 @@
 package gl
 
-// Concurrency of GooseLang (C03). The sequential evaluator treats these as unsupported.
+// Concurrency of GooseLang (C03): Fork, locks, condition variables and wait groups run on the
+// engine's cooperative scheduler; the primitives get the meaning of the Go primitives they model.
 
 type glSched struct{}
 
 func (s *glSched) access(in *Interp, b *Block, off, n int, write bool) {}
 
+type VCond struct{ C *CondObj }
+type VWaitGroup struct{ W *WGObj }
+
+type CondObj struct {
+	L       *LockObj
+	waiters []*condWaiter
+}
+type condWaiter struct{ woken bool }
+type WGObj struct{ n int64 }
+
 func (in *Interp) fork(body Expr, env *Env) {
-	in.unknown("Fork (concurrent programs are outside the sequential evaluator)")
+	in.M.Spawn(func() { in.Eval(body, env) })
+}
+
+func (in *Interp) acquire(l *LockObj) {
+	in.M.Yield(func() bool { return !l.Held }, "lock.acquire")
+	l.Held = true
+}
+
+func (in *Interp) release(l *LockObj) {
+	if !l.Held {
+		in.stuck("lock.release of a free lock")
+	}
+	l.Held = false
 }
 
 func (in *Interp) syncBuiltin(name string, a []Val) (Val, bool) {
+	lockOf := func(v Val) *LockObj {
+		l, ok := v.(VLock)
+		if !ok {
+			in.stuck("%s of a non-lock %s", name, show(v))
+		}
+		return l.L
+	}
+	condOf := func(v Val) *CondObj {
+		c, ok := v.(VCond)
+		if !ok {
+			in.stuck("%s of a non-condition-variable %s", name, show(v))
+		}
+		return c.C
+	}
+	wgOf := func(v Val) *WGObj {
+		w, ok := v.(VWaitGroup)
+		if !ok {
+			in.stuck("%s of a non-waitgroup %s", name, show(v))
+		}
+		return w.W
+	}
 	switch name {
 	case "lock.new":
 		in.nextID++
 		return VLock{&LockObj{ID: in.nextID}}, true
 	case "lock.acquire":
-		l, ok := a[0].(VLock)
-		if !ok {
-			in.stuck("lock.acquire of a non-lock")
-		}
-		if l.L.Held {
-			in.M.End("deadlock", "GooseLang: acquire of a held lock in a sequential program")
-		}
-		l.L.Held = true
+		in.acquire(lockOf(a[0]))
 		return VUnit{}, true
 	case "lock.release":
-		l, ok := a[0].(VLock)
-		if !ok {
-			in.stuck("lock.release of a non-lock")
+		in.release(lockOf(a[0]))
+		return VUnit{}, true
+	case "lock.newCond":
+		return VCond{&CondObj{L: lockOf(a[0])}}, true
+	case "lock.condWait", "lock.condWaitTimeout":
+		c := condOf(a[0])
+		w := &condWaiter{}
+		c.waiters = append(c.waiters, w)
+		in.release(c.L)
+		if name == "lock.condWaitTimeout" && in.timeouts < 3 {
+			// may return at any moment (timeout), or when woken; the number of timeouts per run is bounded
+			in.timeouts++
+			in.M.Yield(nil, name)
+			if !w.woken {
+				for i, x := range c.waiters {
+					if x == w {
+						c.waiters = append(append([]*condWaiter{}, c.waiters[:i]...), c.waiters[i+1:]...)
+					}
+				}
+			}
+		} else {
+			in.M.Yield(func() bool { return w.woken }, name)
 		}
-		if !l.L.Held {
-			in.stuck("lock.release of a free lock")
+		in.acquire(c.L)
+		return VUnit{}, true
+	case "lock.condSignal":
+		c := condOf(a[0])
+		if len(c.waiters) > 0 {
+			c.waiters[0].woken = true
+			c.waiters = c.waiters[1:]
 		}
-		l.L.Held = false
+		return VUnit{}, true
+	case "lock.condBroadcast":
+		c := condOf(a[0])
+		for _, w := range c.waiters {
+			w.woken = true
+		}
+		c.waiters = nil
+		return VUnit{}, true
+	case "waitgroup.New":
+		return VWaitGroup{&WGObj{}}, true
+	case "waitgroup.Add":
+		w := wgOf(a[0])
+		d := in.intOf(a[1], 64, name)
+		w.n += int64(in.M.ConcreteInt(d, "waitgroup.Add"))
+		return VUnit{}, true
+	case "waitgroup.Done":
+		w := wgOf(a[0])
+		w.n--
+		if w.n < 0 {
+			in.stuck("waitgroup counter negative")
+		}
+		return VUnit{}, true
+	case "waitgroup.Wait":
+		w := wgOf(a[0])
+		in.M.Yield(func() bool { return w.n == 0 }, name)
 		return VUnit{}, true
 	}
 	return nil, false
